@@ -20,18 +20,33 @@ structure UpQ (P : Par) (Q : Query) (h : UpHdr) (k : Nat) (chunk : List Nat) : P
 
 /-- the slot expects fragment `f` of the upstream packet `out` with seqno `sq`: its first `o` bytes are there -/
 def Expect (x : Session) (out : List Nat) (sq o f : Nat) : Prop :=
-  (f = 0 ∧ o = 0 ∧ (sq : Int) = (x.inpacket.seqno + 1) % 8) ∨
+  (f = 0 ∧ o = 0 ∧ ∃ j : Nat, 1 ≤ j ∧ j ≤ 4 ∧ (sq : Int) = (x.inpacket.seqno + j) % 8) ∨
   (f ≠ 0 ∧ x.inpacket.seqno = (sq : Int) ∧ x.inpacket.fragment = (f : Int) - 1 ∧ x.inpacket.offset = o ∧ x.inpacket.len = o ∧
     x.inpacket.data.take o = out.take o)
+
+/-- server: the first fragment of a packet whose sequence number is 1..4 AHEAD of the slot's is taken as a new packet
+(the window of "recent duplicates" is the current number and the three before it) -/
+theorem dataUpstream_far (x : Server.Session) (a : Int) (ha : 0 ≤ a ∧ a < 8) (hx : x.inpacket.seqno = a) (j : Nat)
+    (hj : 1 ≤ j ∧ j ≤ 4) (frag : Nat) :
+    (Server.dataUpstream x ((a + j) % 8).toNat frag).2 = true ∧
+    (Server.dataUpstream x ((a + j) % 8).toNat frag).1 =
+      { x with inpacket := { x.inpacket with seqno := (a + j) % 8, fragment := frag, len := 0, offset := 0 } } := by
+  have hcast : (((a + j) % 8).toNat : Int) = (a + j) % 8 := by omega
+  have hne : ¬ (a + j) % 8 = a := by omega
+  have hfar : Server.recentSeqno a ((a + j) % 8) = false := by
+    rw [← recentSeqno_eq]; exact recentSeqno_far a ha j hj
+  unfold Server.dataUpstream
+  simp only [hcast, hx, hne, false_and, if_false, hfar, Bool.false_eq_true, and_false,
+    ne_eq, not_false_eq_true, if_true, and_self]
 
 theorem accept_of_expect {x : Session} {out : List Nat} {sq o f : Nat} (h : Expect x out sq o f)
     (hs : 0 ≤ x.inpacket.seqno ∧ x.inpacket.seqno < 8) :
     ∃ I : Packet, dataUpstream x sq f = ({ x with inpacket := I }, true) ∧ I.seqno = (sq : Int) ∧ I.fragment = (f : Int) ∧
       I.offset = o ∧ I.len = o ∧ I.data.take o = out.take o := by
-  rcases h with ⟨h1, h2, h3⟩ | ⟨h1, h2, h3, h4, h5, h6⟩
+  rcases h with ⟨h1, h2, j, hj1, hj4, h3⟩ | ⟨h1, h2, h3, h4, h5, h6⟩
   · subst h1; subst h2
-    have hsq : sq = ((x.inpacket.seqno + 1) % 8).toNat := by omega
-    have := dataUpstream_next x x.inpacket.seqno hs rfl 0
+    have hsq : sq = ((x.inpacket.seqno + j) % 8).toNat := by omega
+    have := dataUpstream_far x x.inpacket.seqno hs rfl j ⟨hj1, hj4⟩ 0
     rw [← hsq] at this
     refine ⟨_, Prod.ext this.2 this.1, ?_, rfl, rfl, rfl, by simp⟩
     simp only
